@@ -51,9 +51,17 @@ def is_max(e):
     return e[0] == "field" and e[2] == "max_stack_size" and peel(e[1], ()) == ("param", 1)
 
 
+_IS_FULL_EXPR = {}
+
+
 def full_relation(e, truth, a_pred=is_size, b_pred=is_max):
     """classify a comparison between a (size-like) and b (max-like) taken with `truth`:
-    returns 'a>=b', 'a<b', 'a==b', 'a!=b', 'a>b', 'a<=b' or None"""
+    returns 'a>=b', 'a<b', 'a==b', 'a!=b', 'a>b', 'a<=b' or None.
+    A call of the helper `self.is_full()` stands for the comparison that helper returns."""
+    if callee_is(e, "Stack::is_full") and peel(e[3][0], ()) == ("param", 1) and _IS_FULL_EXPR.get("e") is not None and a_pred is is_size and b_pred is is_max:
+        return full_relation(_IS_FULL_EXPR["e"], truth)
+    if e[0] == "unop" and e[1] == "Not":
+        return full_relation(e[2], not truth, a_pred, b_pred)
     if e[0] != "binop":
         return None
     op, x, y = e[1], e[2], e[3]
@@ -86,6 +94,10 @@ def grows(p):
 def check(ctx):
     F = ctx.F
     # ================= R04.1 =================================================
+    # the helper is_full(): remembered so that `if self.is_full()` in push is read as the comparison it stands for
+    fi = ctx.fn(S + "is_full")
+    pi = return_paths(ctx.paths(fi))
+    _IS_FULL_EXPR["e"] = pi[0].ret if len(pi) == 1 and not pi[0].calls()[1:] else None
     # push
     f = ctx.fn(S + "push")
     paths = [p for p in ctx.paths(f) if p.end != "unreachable"]
